@@ -248,7 +248,17 @@ def f1_recording(ctx, rule: str = "F1", universe: bool = False) -> None:
             continue
         v = _value_of(f, idx)
         a = affine(v)
-        after = C.dominates(f, C.stmt_of(rec[0]), c)
+        # where the value was computed: at the definition of the local that carries it, else at the use
+        site = c
+        e_ = idx
+        hops = 0
+        while isinstance(e_, ast.Name) and hops < 6:
+            r_ = D.reaching_value(f, e_, e_.id)
+            if r_ is None:
+                break
+            site, e_ = r_[0], r_[1]
+            hops += 1
+        after = C.dominates(f, C.stmt_of(rec[0]), site)
         want = {"len(self._rules)": 1, "1": -1} if after else {"len(self._rules)": 1}
         n_idx += 1
         if a == want:
@@ -493,7 +503,21 @@ def f5_firing_test(ctx) -> None:
 
 # ------------------------------------------------------------------ F6: corrections after an increase
 def _table_loop(f, table: str, cls_name: str) -> List[ast.For]:
-    return [l for l in walk_local(f) if isinstance(l, ast.For) and norm(l.iter) == f"self.{table}[{cls_name}]"]
+    want = f"self.{table}[{cls_name}]"
+    out = []
+    for l in walk_local(f):
+        if not isinstance(l, ast.For):
+            continue
+        if norm(l.iter) == want:
+            out.append(l)
+        elif isinstance(l.iter, ast.Name):
+            # a local bound to the table entry just before (no statement in between that could replace the entry)
+            rv_ = D.reaching_value(f, l.iter, l.iter.id)
+            if rv_ is not None and norm(rv_[1]) == want:
+                blk = C.block_path(f, l)[-1]
+                if blk[3] > 0 and blk[2][blk[3] - 1] is C.stmt_of(rv_[0]):
+                    out.append(l)
+    return out
 
 
 def _shift_row(f, loop: ast.For, ridx: str) -> List[str]:
@@ -740,6 +764,12 @@ def f7_infinite_corrections(ctx) -> None:
         if not C.dominates(f, C.stmt_of(mark), lp):
             ctx.violation("F7", lp, "the shifts are corrected before the class is marked infinite")
         clr2 = [c for c in _calls(f, f"self._rules_using_class[{cc}].clear")]
+        # ... or through a local that was bound to the list after the loop that may replace it
+        for c in walk_local(f):
+            if isinstance(c, ast.Call) and isinstance(c.func, ast.Attribute) and c.func.attr == "clear" and isinstance(c.func.value, ast.Name):
+                rv_ = D.reaching_value(f, c.func.value, c.func.value.id)
+                if rv_ is not None and norm(rv_[1]) == f"self._rules_using_class[{cc}]" and all(C.dominates(f, l, rv_[0]) for l in pl):
+                    clr2.append(c)
         if clr2 and all(C.dominates(f, lp, c) for c in clr2):
             ctx.ok("F7", f"_rules_using_class[{cc}] is emptied after the correction")
         else:
